@@ -227,11 +227,24 @@ def gen_case(rng: random.Random, idx: int):
         for i in range(n):
             dk[i * n + i] = 0
     case["d"], case["dk"], case["kmask"] = d, dk, kmask_of(dk)
-    nin = prod(dm["inshape"])
     ops = []
     nsteps = rng.randint(3, 8)
     p_spike = rng.choice([0.3, 0.5, 0.8])
+    seg = {"dt": dt, "ksteps": ksteps, "delay": case["delay"], "B": case["B"]}     # configuration in force
+    kmax = ksteps or 0
+
+    def new_delays():
+        sc = dict(case, **seg)
+        d2, dk2 = gen_delays(rng, sc, dm["nw"])
+        if conn == "lateral":
+            n = dm["I"]
+            for i in range(n):
+                dk2[i * n + i] = 0
+        return d2, dk2
+
     for _ in range(nsteps):
+        dm = dims(dict(case, **seg))
+        nin = prod(dm["inshape"])
         if case["float_in"] and cls != 0:
             xs = [rng.choice([0.0, 0.0, 1.0, 1.0, 0.5, 2.0, -1.0]) for _ in range(nin)]
         else:
@@ -259,17 +272,51 @@ def gen_case(rng: random.Random, idx: int):
             ops.append(["clear"])
             if rng.random() < 0.5:
                 ops.append(rng.choice([["syncur"], ["synspk"]]))
-        if 0.84 < r <= 0.90 and ksteps:
-            d2, dk2 = gen_delays(rng, case, dm["nw"])
-            if conn == "lateral":
-                n = dm["I"]
-                for i in range(n):
-                    dk2[i * n + i] = 0
+        if 0.84 < r <= 0.90 and seg["ksteps"]:
+            d2, dk2 = new_delays()
             ops.append(["setdelay", d2, kmask_of(dk2), dk2])
+        # checkpoint / restore into a twin, and reconfiguration in the middle of the run
+        r2 = rng.random()
+        if r2 < 0.11:
+            ops.append(["restore", rng.choice(["fresh", "used", "used"]), rng.randint(1, 5), rng.randint(0, 10**6)])
+            if rng.random() < 0.4:
+                ops.append(rng.choice([["syncur"], ["synspk"]]))
+        elif r2 < 0.145:
+            # connection.dt = new step time (clears the synapse); the maximum delay stays the same number of ms
+            cands = []
+            for nd in ([1.0, 0.5, 0.25] if dyadic else [seg["dt"] * 0.5, seg["dt"] * 2.0]):
+                if nd == seg["dt"] or (syn["tol"] != 0 and nd < seg["dt"]):
+                    continue
+                ks = seg["ksteps"]
+                if ks:
+                    q = Fraction(ks) * Fraction(seg["dt"]) / Fraction(nd)
+                    if q.denominator != 1 or q > 6 or float(int(q) * nd) != seg["delay"]:
+                        continue
+                    ks = int(q)
+                cands.append((nd, ks))
+            if cands:
+                nd, ks = rng.choice(cands)
+                seg["dt"], seg["ksteps"] = nd, ks
+                kmax = max(kmax, ks or 0)
+                d2, dk2 = new_delays()
+                ops.append(["setdt", nd, d2, kmask_of(dk2), dk2, ks])
+        elif r2 < 0.18 and seg["ksteps"] is not None:
+            # connection.synapse.delay = new maximum delay (clears the synapse)
+            ks = rng.choice([k for k in (0, 1, 2, 3, 4) if k != seg["ksteps"]])
+            seg["ksteps"], seg["delay"] = ks, float(ks * seg["dt"])
+            kmax = max(kmax, ks)
+            d2, dk2 = new_delays()
+            ops.append(["setmaxdelay", seg["delay"], d2, kmask_of(dk2), dk2, ks])
+        elif r2 < 0.21:
+            # connection.batchsz = new batch size (keeps the histories of the surviving batch elements)
+            nb = rng.choice([b for b in (1, 2, 3) if b != seg["B"]])
+            seg["B"] = nb
+            ops.append(["setbatch", nb])
     if rng.random() < 0.5:
         ops.append(["syncur"])
         ops.append(["synspk"])
     case["ops"] = ops
+    case["kmax"] = kmax
     return case
 
 
@@ -343,27 +390,58 @@ def q_op(op):
         return "KSelector FN"
     if k == "setdelay":
         return f"KSetDelay FN {ql(op[1])}"
+    if k == "restore":
+        return "KRestore FN"
     return "KClear FN"
 
 
-def q_case(case):
+def segments(case):
+    """The model runs a case as a sequence of segments.  `connection.dt = v` and `connection.synapse.delay = v` clear the
+    synapse and resize its records: the model reads them as 'the same connection constructed with the new value, at
+    rest, carrying the delay tensor assigned right after' - a new segment.  `connection.batchsz = v` keeps part of the
+    state and is not modelled: the correspondence stops there (the direct oracle continues).
+    -> list of (config dict, delay tensor, ops), number of case ops covered by the model"""
+    cfg = {"dt": case["dt"], "delay": case["delay"], "B": case["B"]}
+    segs = [(dict(cfg), case["d"], [])]
+    n = 0
+    for op in case["ops"]:
+        if op[0] == "setbatch":
+            break
+        n += 1
+        if op[0] == "setdt":
+            cfg["dt"] = op[1]
+            segs.append((dict(cfg), op[2], []))
+        elif op[0] == "setmaxdelay":
+            cfg["delay"] = op[1]
+            segs.append((dict(cfg), op[2], []))
+        else:
+            segs[-1][2].append(op)
+    return segs, n
+
+
+def q_segment(case, cfg, d, oplist):
     dm = dims(case)
-    ops = F.coq_list([q_op(o) for o in case["ops"]])
-    head = f"{q_sp(case['syn'])} {qf(case['dt'])} {qopt(None if case['delay'] is None else qf(case['delay']))} {case['B']}%nat"
+    ops = F.coq_list([q_op(o) for o in oplist])
+    head = f"{q_sp(case['syn'])} {qf(cfg['dt'])} {qopt(None if cfg['delay'] is None else qf(cfg['delay']))} {cfg['B']}%nat"
     b = qopt(None if case["b"] is None else ql(case["b"]))
     k = case["conn"]
     if k == "dense":
         return (f"dense_case {head} {qn(case['in'])} {qn(case['out'])} {ql2(case['W'], dm['I'])} {b} "
-                f"{ql2(case['d'], dm['I'])} {ops}")
+                f"{ql2(d, dm['I'])} {ops}")
     if k == "direct":
-        return f"direct_case {head} {qn(case['shape'])} {ql(case['W'])} {b} {ql(case['d'])} {ops}"
+        return f"direct_case {head} {qn(case['shape'])} {ql(case['W'])} {b} {ql(d)} {ops}"
     if k == "lateral":
-        return (f"lateral_case {head} {qn(case['shape'])} {ql2(case['W'], dm['I'])} {b} {ql2(case['d'], dm['I'])} {ops}")
+        return (f"lateral_case {head} {qn(case['shape'])} {ql2(case['W'], dm['I'])} {b} {ql2(d, dm['I'])} {ops}")
     g = case["geom"]
     geom = (f"(Conn.mkG {g['H']} {g['W']} {g['C']} {g['F']} {g['kernel'][0]} {g['kernel'][1]} {g['stride'][0]} {g['stride'][1]} "
             f"{g['padding'][0]} {g['padding'][1]} {g['dilation'][0]} {g['dilation'][1]})%Z")
     return (f"conv_case {head} {geom} {ql4(case['W'], g['C'], g['kernel'][0], g['kernel'][1])} {b} "
-            f"{ql4(case['d'], g['C'], g['kernel'][0], g['kernel'][1])} {ops}")
+            f"{ql4(d, g['C'], g['kernel'][0], g['kernel'][1])} {ops}")
+
+
+def q_case(case):
+    segs, _ = segments(case)
+    return "Nd [" + "; ".join(q_segment(case, cfg, d, ol) for cfg, d, ol in segs) + "]"
 
 
 # ------------------------------------------------------------------ model vs implementation
@@ -388,6 +466,8 @@ def dec_impl(o):
         return ("b", list(o[1]), [int(x) for x in o[2]])
     if t == 3:
         return ("err", int(o[1]))
+    if t == 5:                          # a dt / maximum-delay setter: reports the new record size
+        return ("unit",)
     return ("baddtype", o[1], o[2])
 
 
@@ -406,13 +486,23 @@ def same_out(case, a, b):
 
 
 def compare(case, mtree, res):
-    if mtree[0] != res["info"]["recordsz"]:
-        return [(-1, {"recordsz_model": mtree[0], "recordsz_impl": res["info"]["recordsz"]})]
-    mo = mtree[1]
-    if len(mo) != len(res["trace"]):
-        return [(-1, "trace length")]
-    for i, (m, t) in enumerate(zip(mo, res["trace"])):
-        a, b = dec_model(m), dec_impl(t)
+    segs, n = segments(case)
+    if len(mtree) != len(segs):
+        return [(-1, "number of segments")]
+    if mtree[0][0] != res["info"]["recordsz"]:
+        return [(-1, {"recordsz_model": mtree[0][0], "recordsz_impl": res["info"]["recordsz"]})]
+    si, pos = 0, 0
+    for i, (op, t) in enumerate(zip(case["ops"][:n], res["trace"][:n])):
+        if op[0] in ("setdt", "setmaxdelay"):
+            si, pos = si + 1, 0
+            if t[0] != 5 or mtree[si][0] != t[1]:
+                return [(i, {"op": op[0], "recordsz_model": mtree[si][0], "impl": t})]
+            continue
+        mo = mtree[si][1]
+        if pos >= len(mo):
+            return [(i, "model trace too short")]
+        a, b = dec_model(mo[pos]), dec_impl(t)
+        pos += 1
         if not same_out(case, a, b):
             return [(i, {"model": a, "impl": b})]
     return []
@@ -485,7 +575,11 @@ def expect(case, bank, what, e, t, dk):
     return past(bank, older, "pos", e) * math.exp(-s / sy["tau"]) - past(bank, older, "neg", e) * math.exp(-s / sy["tr"])
 
 
-def oracle_case(case, res):
+STALE = "stale"
+
+
+def oracle_case(case0, res):
+    case = dict(case0)                  # the configuration in force (dt / maximum delay / batch size setters change it)
     fails = []
     if isinstance(res["bank"], dict) and "crash" in res["bank"]:
         return [{"step": None, "detail": {"undelayed_copies_crashed": res["bank"]["crash"]}, "signature": {"kind": "oracle_crash"}}]
@@ -517,6 +611,30 @@ def oracle_case(case, res):
             continue
         if k == "clear":
             last = None
+            continue
+        if k == "restore":              # the run continues on the twin; the expectation (the undelayed copies fed the
+            continue                    # shifted inputs of the WHOLE run) simply continues across the restore
+        if k in ("setdt", "setmaxdelay"):
+            if k == "setdt":
+                case["dt"] = op[1]
+            else:
+                case["delay"] = op[1]
+            case["ksteps"] = op[5]
+            d, dk = list(op[2]), list(op[4])
+            if conn == "lateral":
+                for j in range(dm["I"]):
+                    d[j * dm["I"] + j] = 0.0
+            delayed = bool(case["delay"])
+            last = None                 # both setters clear the synapse
+            continue
+        if k == "setbatch":
+            case["B"] = op[1]
+            dm = dims(case)
+            T = list(terms(case, dm))
+            nsyn = prod(dm["synshape"])
+            last = STALE                # no view is compared before the next step
+            continue
+        if last is STALE and k in ("syncur", "synspk"):
             continue
         if k == "setdelay":
             if case["delay"] is not None:
@@ -681,7 +799,10 @@ def run(ctx):
                 "overbound value/None x interpolation mode x inplace; per-synapse delay tensors heterogeneous on the grid (55%), "
                 "homogeneous, all zero, with entries between grid points / within tolerance, with entries beyond the range; "
                 "3-8 forward steps (binary or real-valued inputs, injected currents for DeltaPlus) interleaved with syncurrent / "
-                "synspike / selector reads, clears and delay re-assignments; every 9th case from a malformed stream (wrong input "
+                "synspike / selector reads, clears, delay re-assignments, state_dict checkpoint + load into a twin connection "
+                "(fresh, or already run on other data) on which the run continues, and dt / maximum-delay / batch-size setters "
+                "in the middle of the run (model: new segment for dt / maximum delay; batch-size changes are oracle-only); "
+                "every 9th case from a malformed stream (wrong input "
                 "shape); non-trivial = >= 3 steps, positive maximum delay, >= 2 distinct delays; distinct by full case text",
         "op_distribution": dict(Counter(o[0] for c in cases for o in c["ops"])),
         "connection_distribution": dict(Counter(c["conn"] for c in cases)),
@@ -716,7 +837,7 @@ def minimise(case, rounds=10):
     for _ in range(rounds):
         changed = False
         for a in range(len(ops) - 1):
-            if ops[a][0] in ("step", "setdelay", "clear"):
+            if ops[a][0] in ("step", "setdelay", "clear", "restore", "setdt", "setmaxdelay", "setbatch"):
                 continue
             cand = dict(case, ops=ops[:a] + ops[a + 1:])
             ff = _fails(cand)
